@@ -23,6 +23,23 @@ def same(a, b):
     return isinstance(a, (int, float)) and isinstance(b, (int, float)) and float(a) == float(b)
 
 
+def score_roles(fn):
+    """names by definition: coefficient object (bound from the shared table), age factor, lookup key, result"""
+    r = {'coeffs': 'coeffs', 'age': 'age_factor', 'key': 'key', 'result': 'points'}
+    for n in ast.walk(fn):
+        if isinstance(n, ast.Assign) and len(n.targets) == 1 and isinstance(n.targets[0], ast.Name):
+            v = n.value
+            if isinstance(v, ast.Subscript) and ast.unparse(v.value) == '_scoring_objects':
+                r['coeffs'] = n.targets[0].id
+                r['key'] = ast.unparse(v.slice)
+            if isinstance(v, ast.Call) and call_name(v) == 'calculate_factor':
+                r['age'] = n.targets[0].id
+    rets = [x for x in ast.walk(fn) if isinstance(x, ast.Return) and isinstance(x.value, ast.Name)]
+    if rets:
+        r['result'] = rets[-1].value.id
+    return r
+
+
 def dispatch_arms(fn):
     """the PAT_JUMPS / PAT_THROWS / else chain of score() or performance(): {'jumps': body, 'throws': body, 'time': body}"""
     for n in ast.walk(fn):
@@ -184,7 +201,8 @@ def run(ctx, repo):
     while p is not None and not isinstance(p, ast.If):
         p = getattr(p, '_parent', None)
     cond = ast.unparse(p.test) if p is not None else ''
-    if "'M-800'" in cond and 'esaa' in cond and ' or ' not in cond:
+    esaa_param = score.args.args[4].arg if len(score.args.args) > 4 else 'esaa'
+    if "'M-800'" in cond and esaa_param in cond and ' or ' not in cond:
         ctx.ok('R1', 'override guarded by key == M-800 and esaa')
     else:
         ctx.finding('R1', '%s::score::ESAA override condition' % ATH, ATH, over[0].lineno,
@@ -195,12 +213,13 @@ def run(ctx, repo):
     if arms is None:
         raise AnalysisError('score(): PAT_JUMPS / PAT_THROWS / else dispatch chain not found')
     markname = score.args.args[2].arg
+    RL = score_roles(score)
     for kind, body in arms.items():
         env = {markname: Sym(1.0)}
         rounded = None
         for st in body:
             if isinstance(st, ast.Assign) and len(st.targets) == 1 and isinstance(st.targets[0], ast.Name):
-                v = sym_eval(st.value, env, markname, 'age_factor')
+                v = sym_eval(st.value, env, markname, RL['age'])
                 if st.targets[0].id == markname or v.scale is not None:
                     env[st.targets[0].id] = v
                     if v.rnd and rounded is None:
@@ -257,7 +276,7 @@ def run(ctx, repo):
                         else:
                             ctx.ok('R2', '%s arm: guard %s agrees with base %s' % (kind, unparse(n.test), unparse(base)))
                         # coefficients roles: A * base ** X
-                        if 'X' not in ast.unparse(pw.right) or ("'A'" not in ast.unparse(pw._parent) and '"A"' not in ast.unparse(pw._parent)):
+                        if "'X'" not in ast.unparse(pw.right) or "'A'" not in ast.unparse(pw._parent):
                             ctx.finding('R2', key + 'coefficient roles', ATH, pw.lineno,
                                         'the power law is %s, not A * base ** X' % unparse(pw._parent))
 
